@@ -864,18 +864,24 @@ Fixpoint exec_monitor (rem : list step) (xs : list xobs) : option string :=
       end
   end.
 
+(* which stores may receive a leader, by the state the case put the store in: only a store that is up - heartbeating, not
+   offline, not busy, not evicted, not tombstone, and not excluded by any reject-leader label property; a store that was
+   silent beyond the thresholds and has merely registered again is still down / disconnected *)
+Definition state_accepts_leader (state : string) : bool := String.eqb state "up".
+
 Inductive ccase :=
+| CRule (state : string) (real : bool)                                (* StoreStateFilter{TransferLeader}.Target on a store in that state *)
 | CExec (r : region) (ss : list step) (xs : list xobs)                (* a plan run by the real OperatorController *)
 | CBuild (i : binput) (out : bout) (tr : list tobs)                   (* NewBuilder ... Build *)
 | CLeave (c : cluster) (r : region) (out : bout) (tr : list tobs)     (* CreateLeaveJointStateOperator *)
 | CProbe (r : region) (ss : list step) (tr : list tobs)               (* arbitrary steps on an arbitrary region: step.go only *)
 | CPend (r : region) (pend : list Z) (ss : list step) (fins : list bool). (* IsFinish of each step on r with pending peers *)
 
-Definition case_region (c : ccase) : region := match c with CBuild i _ _ => i_region i | CLeave _ r _ _ | CProbe r _ _ | CPend r _ _ _ | CExec r _ _ => r end.
-Definition case_out (c : ccase) : bout := match c with CBuild _ o _ | CLeave _ _ o _ => o | CProbe _ ss _ => Built ss false false | CPend _ _ _ _ | CExec _ _ _ => BuildErr end.
-Definition case_trace (c : ccase) : list tobs := match c with CBuild _ _ t | CLeave _ _ _ t | CProbe _ _ t => t | CPend _ _ _ _ | CExec _ _ _ => [] end.
+Definition case_region (c : ccase) : region := match c with CBuild i _ _ => i_region i | CLeave _ r _ _ | CProbe r _ _ | CPend r _ _ _ | CExec r _ _ => r | CRule _ _ => Region [] 0 0 0 end.
+Definition case_out (c : ccase) : bout := match c with CBuild _ o _ | CLeave _ _ o _ => o | CProbe _ ss _ => Built ss false false | CPend _ _ _ _ | CExec _ _ _ | CRule _ _ => BuildErr end.
+Definition case_trace (c : ccase) : list tobs := match c with CBuild _ _ t | CLeave _ _ _ t | CProbe _ _ t => t | CPend _ _ _ _ | CExec _ _ _ | CRule _ _ => [] end.
 Definition model_out (c : ccase) : bout :=
-  match c with CBuild i _ _ => build i | CLeave cl r _ _ => leave_joint_op cl r | CProbe _ ss _ => Built ss false false | CPend _ _ _ _ | CExec _ _ _ => BuildErr end.
+  match c with CBuild i _ _ => build i | CLeave cl r _ _ => leave_joint_op cl r | CProbe _ ss _ => Built ss false false | CPend _ _ _ _ | CExec _ _ _ | CRule _ _ => BuildErr end.
 
 (* None = model and implementation agree *)
 Definition check_case (c : ccase) : option (string * bout * list (nat * option tobs * option tobs)) :=
@@ -883,6 +889,7 @@ Definition check_case (c : ccase) : option (string * bout * list (nat * option t
   | CPend r pend ss fins =>
       if list_eqb Bool.eqb (map (is_finish_p pend r) ss) fins then None
       else Some ("IsFinish with pending peers differs (model steps shown)", Built ss false false, [])
+  | CRule _ _ => None      (* judged by the monitor *)
   | CExec r ss xs =>
       if list_eqb (fun a b => list_eqb cmd_eqb (fst a) (fst b) && Bool.eqb (snd a) (snd b))
                   (exec_model ss true xs) (map (fun x => (x_sent x, x_running x)) xs) then None
@@ -1014,7 +1021,11 @@ Fixpoint pend_monitor (r : region) (pend : list Z) (ss : list step) (fins : list
   end.
 
 Definition monitor (c : ccase) : option string :=
-  match c with CPend r pend ss fins => pend_monitor r pend ss fins | CExec r ss xs => exec_monitor ss xs | _ =>
+  match c with CPend r pend ss fins => pend_monitor r pend ss fins | CExec r ss xs => exec_monitor ss xs
+  | CRule state real =>
+      if Bool.eqb real (state_accepts_leader state) then None
+      else Some (sapp "C08:leader-target-rule:" (sapp state (if real then "-store-accepted" else "-store-refused")))
+  | _ =>
   match plan_monitor c with
   | Some v => Some v
   | None => match case_out c with
